@@ -53,17 +53,18 @@ def matchAt (s : Str) : Option (Str × Str × Nat) :=
       if v.isEmpty then none else some (w ++ star, v, w.length + star.length + 1 + sp + v.length)
   | _ => none
 
-/-- `RE_AUTHORIZATION.findall(auth)`: leftmost matches, scanning on after each -/
-def scanAuth : Str → List (Str × Str)
-  | [] => []
-  | c :: cs =>
-    match matchAt (c :: cs) with
-    | some (k, v, n) => (k, v) :: scanAuth (cs.drop (n - 1))
-    | none => scanAuth cs
-termination_by s => s.length
-decreasing_by
-  all_goals simp_wf
-  · have := List.length_drop (i := n - 1) (l := cs); omega
+/-- `RE_AUTHORIZATION.findall(auth)`: leftmost matches, scanning on after each
+    (`fuel`: at least the length of the string - every turn consumes a character) -/
+def scanAuthF : Nat → Str → List (Str × Str)
+  | 0, _ => []
+  | fuel + 1, s =>
+    if s.isEmpty then []
+    else
+      match matchAt s with
+      | some r => (r.1, r.2.1) :: scanAuthF fuel (s.drop r.2.2)
+      | none => scanAuthF fuel (s.drop 1)
+
+def scanAuth (s : Str) : List (Str × Str) := scanAuthF s.length s
 
 /-- `val.strip('"')` -/
 def stripQuotes (v : Str) : Str := ((v.dropWhile (· == '"')).reverse.dropWhile (· == '"')).reverse
